@@ -249,6 +249,8 @@ def run(tier):
     R.cov["rule"] = ("BFS over the real Mitochondria/Nucleus (depth %d; dedup on registry + ROS level) over {register(name, any required-capability subset) incl. "
                      "re-registration and duck-typed tools, metabolize auto/forced, execute_tool_call, LLM tool loop with a scripted provider naming one or two "
                      "tools, repair}; every edge judged by TLC. non-trivial = new state or a refused call" % depth)
+    from . import c03conc
+    c03conc.run_into(R, tier)
     R.assumptions += ["tool bodies are counting stubs; the provider is scripted (adversarial: names any tool in any order)",
                       "refusal in the tool loop is read from the error text fed back to the provider"]
     return R.finish()
